@@ -455,6 +455,10 @@ WaitingChildren(p, b) == {x[1] : x \in {y \in p.bpar : y[2] = b /\ y[1] \in p.kn
 
 \* add_valid_cert; evc is the CertCreated event to emit
 AddValidCert(a, c, evc) ==
+  \* INTENDED (F17): a certificate created by the same vote may just have decided and pruned the slot (the
+  \* notarization completing a pending finalization, then the fast-finalization certificate of the same vote):
+  \* nothing is left to update, the certificate is only handed to Votor
+  IF c.s < a.p.fup THEN Acc(a.p, Append(a.ev, evc), a.rep, a.woken) ELSE
   LET p0 == [a.p EXCEPT !.retained = @ \cup {c.s}, !.certs = @ \cup {c}]
       a0 == Acc(p0, a.ev, a.rep, a.woken)
       b  == <<c.s, c.h>>
